@@ -13,6 +13,7 @@ import OapiVerif.Model.Union
 import OapiVerif.Model.DeepObject
 import OapiVerif.Model.GoJson
 import OapiVerif.Model.EnumClash
+import OapiVerif.Model.Combine
 /-!
 Line-protocol driver: one JSON object per line in, one per line out.
 `{"fn": <name>, ...}` ↦ `{"ok": <result>}` or `{"err": "bad-op"}` (never a default).
@@ -345,6 +346,17 @@ def enumFlagsD (j : Json) : Except String Json := do
   pure (Json.mkObj [("enums", Json.arr (out.map fun e =>
     Json.mkObj [("pre", Json.bool e.pre), ("vals", Json.arr ((e.vals uc).map jcps).toArray)]).toArray)])
 
+/-- `CombineOperationParameters`: declarations as [loc, tag, name code points…]; result = tags in order, or the error. -/
+def combineParamsD (j : Json) : Except String Json := do
+  let rd (k : String) : Except String (List Combine.Decl) := do
+    let a ← j.getObjValAs? (Array (Array Nat)) k
+    pure (a.toList.map fun r => ⟨r[0]!, (r.toList.drop 2), r[1]!⟩)
+  let g ← rd "global"
+  let l ← rd "local"
+  pure (match Combine.combine g l with
+    | .ok r => Json.mkObj [("ok", Json.arr (r.map fun d => Json.num d.tag).toArray)]
+    | .error e => Json.mkObj [("error", e)])
+
 def goQuoteD (j : Json) : Except String Json := do
   let s ← getHex j "s"
   let q := Enums.quoteGo s
@@ -502,6 +514,7 @@ def dispatch (fn : String) (j : Json) : Except String Json :=
   | "merge" => mergeD j
   | "enumNames" => enumNamesD j
   | "enumFlags" => enumFlagsD j
+  | "combineParams" => combineParamsD j
   | "goQuote" => goQuoteD j
   | "secDefs" => secDefsD j
   | "provider" => providerD j
